@@ -30,13 +30,17 @@ BASE = {
     un: !union
       a: @@unioncase@@
       b: string
-    gen: Gen<@@genarg@@>
+    gen: !generic
+      name: Gen
+      args: [@@genarg@@]
     deep: !vector
       items: !map
         keys: int
         values: [null, @@deep@@]
     imported: Imp.Thing
-    impgen: Imp.Box<@@impgenarg@@>
+    impgen: !generic
+      name: Imp.Box
+      args: [@@impgenarg@@]
   computedFields:
     calc: plain2 + 1
 Rec2: !record
@@ -61,6 +65,7 @@ GenAlias<T>: !vector
   items: @@ingenericalias@@
 Color: !enum
   values: [red, green]
+KeyedBy<K, V>: K->V
 ##defs:main/a.yml##
 """,
     "main/b.yml": """Proto: !protocol
@@ -68,7 +73,9 @@ Color: !enum
     first: @@step@@
     second: !stream
       items: @@streamitem@@
-    third: GenAlias<@@stepgenarg@@>
+    third: !generic
+      name: GenAlias
+      args: [@@stepgenarg@@]
     fourth: Rec
     fifth: !vector
       items: @@stepnested@@
@@ -91,6 +98,7 @@ Box<T>: !record
     b: T
     c: !vector
       items: @@impvec@@
+KeyedBy<K, V>: K->V
 ##defs:imp/model.yml##
 """,
     "imp2/_package.yml": "namespace: Imp2\n",
@@ -100,6 +108,7 @@ Box<T>: !record
 Wrap<T>: !record
   fields:
     w: T
+KeyedBy<K, V>: K->V
 ##defs:imp2/model.yml##
 """,
     "v0/_package.yml": "namespace: Main\nimports:\n  - ../imp\n",
@@ -118,6 +127,7 @@ Proto: !protocol
     sixth: !map
       keys: string
       values: [null, float]
+KeyedBy<K, V>: K->V
 ##defs:v0/a.yml##
 """,
 }
@@ -150,7 +160,9 @@ TYPE_VIOLATIONS = {
     "generic-arity-missing": ["{G}"],
     "generic-arity-on-nongeneric": ["\"{R}<int>\"", "\"int<int>\"", "\"Color<int>\""],
     "union-duplicate-case": ["[int, int]", "[float, float32]", "[null, string, string]", "[{R}, {R}]"],
-    "union-nested": ["[int, [float, string]]"],
+    "union-nested": ["[int, [float, string]]", "[null, [int, float]]", "[null, string, [int, float]]"],
+    "union-tag-casing": ["!union {BadTag: int, other: float}", "!union {bad_tag: int, other: float}"],
+    "union-untaggable-case": ["[\"int*\", string]"],
     "union-null-not-first": ["[int, null]", "[int, null, string]"],
     "union-only-null": ["[null]"],
     "union-empty": ["[]"],
@@ -159,6 +171,8 @@ TYPE_VIOLATIONS = {
     "map-key-vector": ["!map {keys: !vector {items: int}, values: int}"],
     "map-key-record": ["\"{R}->int\"", "!map {keys: {R}, values: int}"],
     "map-key-optional": ["!map {keys: [null, int], values: int}"],
+    "map-key-through-generic-argument": ["\"KeyedBy<{R}, int>\"", "\"KeyedBy<int*, int>\"", "!generic {name: KeyedBy, args: [[int, string], int]}",
+                                         "\"KeyedBy<int, KeyedBy<{R}, int>>\"", "\"KeyedBy<KeyedBy<int, int>, int>\""],
     "array-mixed-dimension-lengths": ["\"int[x:2, y]\"", "\"int[2,]\""],
     "array-duplicate-dimension-names": ["\"int[x, x]\"", "\"int[x:1, x:2]\""],
     "vector-negative-length": ["!vector {items: int, length: -1}"],
@@ -208,7 +222,13 @@ DEF_VIOLATIONS = {
                            "Cq: !record\n  fields:\n    v: int*3\n  computedFields:\n    c: v[3]\n",
                            "Cq: !record\n  fields:\n    m: string->int\n  computedFields:\n    c: m[1]\n",
                            "Cq: !record\n  fields:\n    a: int[2,3]\n  computedFields:\n    c: a[0]\n",
-                           "Cq: !record\n  fields:\n    a: int[x:2,y:3]\n  computedFields:\n    c: a[z:0, y:0]\n"],
+                           "Cq: !record\n  fields:\n    a: int[x:2,y:3]\n  computedFields:\n    c: a[z:0, y:0]\n",
+                           "Cq: !record\n  fields:\n    a: int[]\n  computedFields:\n    c: a[\"k\"]\n",
+                           "Cq: !record\n  fields:\n    a: !array {items: int}\n  computedFields:\n    c: a[1.5]\n",
+                           "Cq: !record\n  fields:\n    a: int[]\n    s: string\n  computedFields:\n    c: a[0, s]\n",
+                           "Da: int[]\nCq: !record\n  fields:\n    a: Da\n    f: float\n  computedFields:\n    c: a[f]\n",
+                           "Cq: !record\n  fields:\n    a: int[,]\n  computedFields:\n    c: a[0, 1.5]\n",
+                           "Cq: !record\n  fields:\n    v: int*\n    f: float\n  computedFields:\n    c: v[f]\n"],
     "computed-bad-function": ["Cq: !record\n  fields:\n    x: int\n  computedFields:\n    c: size(x)\n",
                               "Cq: !record\n  fields:\n    v: int*\n  computedFields:\n    c: nosuch(v)\n",
                               "Cq: !record\n  fields:\n    a: int[x,y]\n  computedFields:\n    c: dimensionIndex(a, \"z\")\n"],
